@@ -72,52 +72,54 @@ type verifStatsReply struct {
 	Topics    []*verifTopicJSON `json:"topics"`
 }
 
-func verifClient(tag string, host string) *verifClientJSON {
+func verifClient(tag string, host string, optional bool) *verifClientJSON {
 	c := &verifClientJSON{ClientID: "id-" + host, Hostname: host, Version: "V2", RemoteAddress: "10.1.1.1:5",
 		ReadyCount: verifrt.Int(tag + ".rdy"), InFlightCount: verifrt.Int(tag + ".inflight"), MessageCount: verifrt.Int64(tag + ".msgs"),
 		FinishCount: verifrt.Int64(tag + ".fin"), RequeueCount: verifrt.Int64(tag + ".req"), ConnectTs: 1600000000,
 		SampleRate: verifrt.Int32(tag + ".sample")}
-	if verifrt.Bool(tag + ".has-optional-fields") {
+	if optional {
 		c.UserAgent, c.AuthIdentity, c.TopologyRegion = "go-nsq/1.1", "me", "r1"
 	}
 	return c
 }
 
-func verifChannel(tag, name string, clients int) *verifChannelJSON {
+// paused is concrete here (every symbolic flag would double the paths inside Add; the
+// flag's OR-semantics over arbitrary values is decided by VerifC18_ChannelStatsAdd)
+func verifChannel(tag, name string, clients int, paused bool) *verifChannelJSON {
 	c := &verifChannelJSON{ChannelName: name,
 		Depth: verifrt.Int64(tag + ".depth"), BackendDepth: verifrt.Int64(tag + ".backend"),
 		InFlightCount: verifrt.Int64(tag + ".inflight"), DeferredCount: verifrt.Int64(tag + ".deferred"),
 		MessageCount: verifrt.Int64(tag + ".msgs"), ZoneLocalMsgCount: verifrt.Int64(tag + ".zone"),
 		RegionLocalMsgCount: verifrt.Int64(tag + ".region"), GlobalMsgCount: verifrt.Int64(tag + ".global"),
 		RequeueCount: verifrt.Int64(tag + ".requeue"), TimeoutCount: verifrt.Int64(tag + ".timeout"),
-		ClientCount: verifrt.Int(tag + ".clients"), Paused: verifrt.Bool(tag + ".paused"),
+		ClientCount: verifrt.Int(tag + ".clients"), Paused: paused,
 		Clients: []*verifClientJSON{},
 		E2e:     &verifE2eJSON{Count: verifrt.Int(tag + ".e2e")},
 	}
 	for i := 0; i < clients; i++ {
-		c.Clients = append(c.Clients, verifClient(tag+".client", []string{"cb", "ca"}[i%2]))
+		c.Clients = append(c.Clients, verifClient(tag+".client", []string{"cb", "ca"}[i%2], i%2 == 1))
 	}
 	return c
 }
 
-func verifTopic(tag, name string, chans []*verifChannelJSON) *verifTopicJSON {
+func verifTopic(tag, name string, chans []*verifChannelJSON, paused bool) *verifTopicJSON {
 	return &verifTopicJSON{TopicName: name, Channels: chans,
 		Depth: verifrt.Int64(tag + ".depth"), BackendDepth: verifrt.Int64(tag + ".backend"),
 		MessageCount: verifrt.Int64(tag + ".msgs"), MessageBytes: verifrt.Int64(tag + ".bytes"),
-		Paused: verifrt.Bool(tag + ".paused"), E2e: &verifE2eJSON{Count: verifrt.Int(tag + ".e2e")}}
+		Paused: paused, E2e: &verifE2eJSON{Count: verifrt.Int(tag + ".e2e")}}
 }
 
 // verifNodeStats: one of a menu of cluster shapes for a node (topics present on some nodes
 // only, the same channel on many nodes, the same channel name under two topics, ...), every
 // number nondeterministic.
-func verifNodeStats(tag string, shape int) verifStatsReply {
+func verifNodeStats(tag string, shape int, paused bool) verifStatsReply {
 	r := verifStatsReply{Version: "1.3.0", Health: "OK", Topics: []*verifTopicJSON{}}
-	ch := func(t, c string, clients int) *verifChannelJSON { return verifChannel(tag+"."+t+"."+c, c, clients) }
+	ch := func(t, c string, clients int) *verifChannelJSON { return verifChannel(tag+"."+t+"."+c, c, clients, paused) }
 	tp := func(t string, chans ...*verifChannelJSON) {
 		if chans == nil {
 			chans = []*verifChannelJSON{}
 		}
-		r.Topics = append(r.Topics, verifTopic(tag+"."+t, t, chans))
+		r.Topics = append(r.Topics, verifTopic(tag+"."+t, t, chans, paused))
 	}
 	switch shape {
 	case 0: // no topics at all
@@ -162,15 +164,18 @@ func VerifC18_NSQDStatsSums() {
 		shapes := verifrt.Bound("shapes", 5, 7)
 		selTopic, selChan := "", ""
 		query := "/stats?format=json"
-		switch verifrt.Choice("selection", 3) {
-		case 1:
+		includeClients := false
+		switch verifrt.Choice("selection", 4) { // the four ways nsqadmin's views call it
+		case 0: // counter view
+		case 1: // topic view
 			selTopic = "t"
 			query += "&topic=t"
-		case 2:
-			selTopic, selChan = "t", "c"
+		case 2: // channel view
+			selTopic, selChan, includeClients = "t", "c", true
 			query += "&topic=t&channel=c"
+		case 3: // node view
+			includeClients = true
 		}
-		includeClients := verifrt.Choice("include-clients", 2) == 1
 		if !includeClients {
 			query += "&include_clients=false"
 		}
@@ -189,7 +194,7 @@ func VerifC18_NSQDStatsSums() {
 			if f {
 				failed++
 			} else {
-				r = verifNodeStats(tag, verifrt.Choice(tag+".shape", shapes))
+				r = verifNodeStats(tag, verifrt.Choice(tag+".shape", shapes), i == 1)
 			}
 			fails = append(fails, f)
 			replies = append(replies, r)
